@@ -95,7 +95,7 @@ type Machine struct {
 
 var DefaultWeights = map[string]int{
 	"mint": 6, "send": 6, "receive": 6, "send_p2pk": 2, "send_htlc": 1, "melt": 4, "checkmelt": 2, "resolve": 2,
-	"reclaim": 1, "removespent": 1, "mintswap": 1, "rotate": 1, "restart": 1, "restore": 0, "churn": 0,
+	"reclaim": 1, "removespent": 1, "mintswap": 1, "rotate": 1, "restart": 1, "restore": 0, "churn": 0, "join": 1,
 }
 
 func New(t *rapid.T, opt Options) *Machine {
@@ -272,6 +272,8 @@ func (m *Machine) exec(t *rapid.T, op string) bool {
 		return m.opRestore(t)
 	case "churn":
 		return m.opChurn(t)
+	case "join":
+		return m.opJoin(t)
 	}
 	return false
 }
@@ -804,6 +806,58 @@ func (m *Machine) opRestart(t *rapid.T) bool {
 		m.retired[h.Name] = true
 	}
 	m.Count["restart"]++
+	return true
+}
+
+// join: somebody meets a mint for the first time in the middle of the history (after whatever rotations, fee changes
+// and restarts it has been through): a new wallet starts with it as default mint, or an existing wallet that does
+// not trust it yet adds it.
+func (m *Machine) opJoin(t *rapid.T) bool {
+	type cand struct {
+		h *wenv.WalletH
+		u string
+	}
+	var cands []cand
+	for _, h := range m.live() {
+		known := map[string]bool{}
+		for _, u := range trusted(h) {
+			known[u] = true
+		}
+		for _, mw := range m.E.Mints {
+			if u := wenv.URL(mw); !known[u] {
+				cands = append(cands, cand{h, u})
+			}
+		}
+	}
+	if len(m.E.Wallets) < m.Opt.Wallets+2 {
+		for _, mw := range m.E.Mints {
+			cands = append(cands, cand{nil, wenv.URL(mw)})
+		}
+	}
+	if len(cands) == 0 {
+		return false
+	}
+	c := cands[rapid.IntRange(0, len(cands)-1).Draw(t, "join_who")]
+	if c.h == nil {
+		h, err := m.E.NewWallet(fmt.Sprintf("w%d", len(m.E.Wallets)), c.u)
+		m.logf("a new wallet starts with default mint %s: err=%v", c.u, err)
+		if err != nil {
+			m.Fail("C17", "new_wallet_cannot_start", "%v", err)
+			return true
+		}
+		m.pendExp[h.Name] = map[string]pend{}
+		m.Count["join_new_wallet"]++
+		return true
+	}
+	err := m.call(c.h, "AddMint", func() error {
+		_, e := c.h.W.AddMint(c.u)
+		return e
+	})
+	m.logf("%s adds mint %s: err=%v", c.h.Name, c.u, err)
+	if err != nil {
+		m.Fail("C17", "add_mint_failed", "%v", err)
+	}
+	m.Count["join_add_mint"]++
 	return true
 }
 
